@@ -9,6 +9,7 @@ case "$ID" in
   C06|C07|C08|C16) T=parse_diff ;;
   C01|C02) T=eval_diff ;;
   C13) T=ser_diff ;;
+  C03|C04|C05|C09|C10|C11|C12|C14|C15) T=set_diff; export RVV_SET_PROP="$ID" ;;
   *) exit 0 ;;
 esac
 SECS="${VERIF_FUZZ_SECS:-90}"
@@ -64,6 +65,8 @@ if T == 'parse_diff':
     case = {'text': data.decode('utf-8', errors='replace'), 'source_text': data.decode('utf-8', errors='replace')}
 elif T == 'eval_diff':
     case = {'fuzz_bytes': list(data)}
+elif T == 'set_diff':
+    case = {'set_fuzz_bytes': list(data)}
 else:
     case = {'sval_bytes': list(data)}
 path = f'{VERIF}/replays/{prop}-fuzz-{os.path.basename(a)}.json'
